@@ -450,4 +450,7 @@ impl Property for P {
         Out { tag, term, out }
     }
 }
-fn main() { run_main::<P>() }
+fn main() {
+    run_main::<P>();
+    let _ = std::fs::remove_dir_all(format!("/tmp/verif-c30-pki-{}", std::process::id()));
+}
